@@ -22,7 +22,7 @@ TRUSTED = [
 ]
 
 LIBS = ['systemLog', 'arrayNew', 'arrayLength', 'arrayGet', 'arrayPush', 'arraySet', 'objectNew', 'objectGet', 'objectSet', 'stringLength',
-        'systemGlobalGet', 'systemGlobalSet', 'systemBoolean', 'systemType', 'systemCompare', 'mathMax', 'mathMin', 'arraySort',
+        'systemGlobalGet', 'systemGlobalSet', 'systemBoolean', 'systemType', 'systemCompare', 'mathMax', 'mathMin', 'arraySort', 'systemPartial',
         'dataFilter', 'dataCalculatedField', 'dataJoin', 'dataSort', 'dataTop', 'dataAggregate']
 
 
@@ -53,6 +53,15 @@ def templates(r):
                  'b.bare': "function fb(n):\n    k = 0\n    for e in arrayNew(1, 2, 3):\n        k = k + e * n\n    endfor\n    return k\nendfunction\nsystemLog('b')\n"}))
     out.append(('include', "i = 0\nwhile i < 3:\n    include 'tick.bare'\n    i = i + 1\nendwhile\nsystemLog('t=' + t)\n",
                 {'tick.bare': "t = if(t, t, 0) + 1\nsystemLog('tick')\nreturn\nsystemLog('never')\n"}))
+    # closures across an include boundary (an include runs under a COPY of the options): a partial created inside the included file and
+    # called by the includer, and the converse - the statements of the bound function count against the one budget either way
+    fn3 = "function work(tag, n):\n    k = 0\n    while k < n:\n        systemLog(tag + k)\n        k = k + 1\n    endwhile\n    return k\nendfunction\n"
+    out.append(('include', fn3 + "include 'mk.bare'\nsystemLog('a')\nx = pw(2)\nsystemLog('x=' + x)\ny = pw(3)\nsystemLog('end')\n",
+                {'mk.bare': "pw = systemPartial(work, 'in')\nsystemLog('made')\n"}))
+    out.append(('include', fn3 + "pw = systemPartial(work, 'out')\ninclude 'use.bare'\nsystemLog('z=' + z)\nz = pw(2)\nsystemLog('end')\n",
+                {'use.bare': "z = pw(2)\nsystemLog('mid')\nz = z + pw(1)\n"}))
+    out.append(('include', fn3 + "include 'mk.bare'\nsorted = arraySort(arrayNew(2, 1, 3), cmpw)\nsystemLog('end')\n",
+                {'mk.bare': "function cmp3(tag, a, b):\n    systemLog(tag + a + b)\n    return a - b\nendfunction\ncmpw = systemPartial(cmp3, 'c')\n"}))
     # callbacks from the DATA helpers: the row expression calls a script function; with a variables object the helper evaluates under a
     # COPY of the options (the statements started there must count against the same budget).  Decided by the metamorphic clauses
     # (the reference interpreter and the Coq model do not cover data.py).
